@@ -607,7 +607,10 @@ func checkWellFormed(c *core.Case) ([]core.Violation, bool) {
 		{name: "line-starting-with-modules", pre: "require modules.example.com/x v1.0.0\n", noSpec: true},
 		{name: "block-line-starting-with-modules", pre: "require (\n\tmodules.example.com/x v1.0.0\n\tmodule.example.com/y v1.0.0\n)\n", noSpec: true},
 		{name: "dir-with-backslash-and-space", opener: "\\my dir", noSpec: true}, {name: "dir-with-tilde-and-bar", opener: "/~w|x", noSpec: true},
-		{name: "module-quoted-with-escape", escmod: true, noSpec: true}, {name: "comment-trailing-space", tws: true, noSpec: true}, {name: "comment-trailing-space-crlf", tws: true, crlf: true, noSpec: true}}
+		{name: "module-quoted-with-escape", escmod: true, noSpec: true},
+		// a line of 70 000 bytes before the module directive (line readers with a fixed buffer stop there), and one of 65 536 exactly
+		{name: "long-comment-line-first", pre: "// " + strings.Repeat("x", 70000) + "\n", noSpec: true},
+		{name: "line-of-65536-bytes-first", pre: "// " + strings.Repeat("y", 65533-1) + "\n", noSpec: true}, {name: "comment-trailing-space", tws: true, noSpec: true}, {name: "comment-trailing-space-crlf", tws: true, crlf: true, noSpec: true}}
 	for _, v := range variants {
 		text := renderVariant(in.Layout, v)
 		if v.escmod {
